@@ -12,5 +12,6 @@ MkCfg(E) == [buses |-> [i \in 1..3 |-> [name |-> BN[i], parallel |-> FALSE, maxh
 CfgSet == {MkCfg(E) : E \in SUBSET Pairs}
 InitAll == \E c \in CfgSet : InitWith(c)
 SpecAll == InitAll /\ [][Next]_vars
+FairSpecAll == SpecAll /\ SF_vars(Progress) /\ WF_vars(SpinStep /\ UNCHANGED <<Cfg, hlog>>)
 MTypes == <<"T">>
 =============================================================================
